@@ -4,3 +4,4 @@ import FeemsModel.Model.Fuel
 import FeemsModel.Model.Result
 import FeemsModel.Model.Integrate
 import FeemsModel.Model.Storage
+import FeemsModel.Model.Pms
